@@ -38,7 +38,7 @@ type Event struct {
 }
 
 func (e Event) String() string {
-	return fmt.Sprintf("%v %s %s(%s) state=%s", e.At, shortSid(e.Sid), e.Name, e.Arg, e.State)
+	return fmt.Sprintf("%v %s(%s) state=%s", e.At, e.Name, e.Arg, e.State)
 }
 
 func shortSid(s string) string {
@@ -339,12 +339,16 @@ type ReqOpt struct {
 	SlowUntil     time.Duration
 	EndlessBody   bool
 	Hijackable    bool
+	RespHdr       map[string]string // headers an outer handler has already put on the response
 }
 
 // Request starts a handler thread for the request and returns its recorder; it
 // does not run the scheduler.
 func (w *World) Request(method, target string, o ReqOpt) *Resp {
 	r := &Resp{Desc: method + " " + sidMask.ReplaceAllString(target, "sid=*"), hdr: http.Header{}, w: w}
+	for k, v := range o.RespHdr {
+		r.hdr.Set(k, v)
+	}
 	var body io.Reader
 	if o.Body != nil || o.EndlessBody {
 		r.BodyRead = &countingBody{data: o.Body, Endless: o.EndlessBody, Cap: 64 << 20, SlowUntil: o.SlowUntil}
